@@ -12,7 +12,11 @@ Correspondence (model ≈ code), all through the real code of `VERIF_REPO`:
 Oracle: an independent RFC 8323 §3.2 / RFC 7252 §3.1 framer (harness/c15_sim.py) reads the
 joined stream and says what the property demands; the whole session is judged, including what
 happens after the first close (nothing may be dispatched or written any more), and every
-chunking of a stream is judged against that same reading.  `send_message` is judged against the
+chunking of a stream is judged against that same reading.  "Send Abort and close", "answered by
+Pong" are judged on what reaches the PEER: the fake transport has a write buffer (the peer may
+have stopped reading), close() flushes it, abort() throws it away (keys tcp-abort-lost,
+tcp-write-lost).  Sessions run with warnings as errors: a warning issued by library code while
+it handles the peer's bytes escapes data_received like any exception.  `send_message` is judged against the
 RFC framing of the message handed in (requests keep every option and are not modified).  A few
 sessions run with the real TokenManager to see pending requests actually fail with a
 NetworkError on Release/Abort.
@@ -40,11 +44,18 @@ RULE = ("Streams are built by an independent RFC 8323 framer from message sequen
         "every 2-cut. send_message is called with every No-Response value of {absent,0,2,8,16,24,26,127,...} x "
         "request/response codes of every class x client/server role. Each stream is cut exhaustively into all chunkings when it is "
         "short (<= 11 bytes; 14 in the thorough tier), otherwise whole / single bytes / every 2-cut around the headers / random "
-        "cuts. A case is non-trivial when the connection did something beyond its initial CSM; "
-        "distinct by (max size, chunk list).")
+        "cuts. Pings carry tokens of every length 0..8 (zeros, ff, counting, random), with and without elective options, first "
+        "and after the CSM. Back-pressure: every session shape of the tables (and 70 % of the random ones) also runs against a peer "
+        "that stops reading after `room` bytes (0, 1, 6, 7 = exactly the endpoint's CSM, 8, 10, 12, 40, random < 300), so that "
+        "whatever the endpoint writes next - Pong, Abort - waits in the transport's write buffer when the connection is closed. "
+        "All sessions run with warnings turned into errors (as under python -W error). "
+        "A case is non-trivial when the connection did something beyond its initial CSM; "
+        "distinct by (max size, chunk list, room).")
 TRUSTED = ["fake asyncio.Transport and recording token manager (harness/c15_sim.py); "
-           "asyncio is represented by: is_closing() is true after close(), no data_received after close(), "
-           "connection_lost(None) after close()"]
+           "asyncio is represented by: is_closing() is true after close() or abort(), no data_received after that, "
+           "connection_lost(None) after it; write() never blocks and queues what the socket does not take; close() flushes "
+           "the write buffer before the connection ends, abort() discards it (asyncio's documented WriteTransport contract); "
+           "the events compared and judged are the peer's view (bytes that reach it, end of connection)"]
 ASSUMPTIONS = ["bytes are delivered in order and unmodified (TCP); only the segmentation varies",
                "option delta/length 65804 in *outgoing* messages is out of model (C01's off-by-one in "
                "_write_extended_field_value)"]
@@ -268,8 +279,51 @@ def some_chunkings(rng, stream, frame_starts, n_random):
 
 # --------------------------------------------------------------------------- case tables
 
-def session_case(maxsize, chunks, client=False, tag=""):
-    return {"kind": "F", "maxsize": maxsize, "chunks": [spec(c) for c in chunks], "client": client, "tag": tag}
+def session_case(maxsize, chunks, client=False, tag="", room=None):
+    c = {"kind": "F", "maxsize": maxsize, "chunks": [spec(c) for c in chunks], "client": client, "tag": tag}
+    if room is not None:
+        c["room"] = room
+    return c
+
+
+def small_case(case):
+    """what identifies an F case (and is stored as its replay)"""
+    c = {"kind": "F", "maxsize": case["maxsize"], "chunks": case["chunks"], "client": case.get("client", False)}
+    if case.get("room") is not None:
+        c["room"] = case["room"]
+    return c
+
+
+# Back-pressure: the peer stops reading after `room` bytes, what the endpoint writes after that waits in the
+# transport's write buffer.  The endpoint's own CSM is 7 bytes (5 with a one-byte maximum size), a Pong 2..10.
+ROOMS = [0, 1, 6, 7, 8, 10, 12, 40]
+
+
+def backpressure_sessions(env, cases):
+    """Every session shape of the deterministic tables again with a peer that does not read: each distinct
+    (max size, stream) once per table row in one delivery shape (whole and one cut), with every value of ROOMS for
+    the streams that end the connection or make the endpoint write, and one drawn value for the others."""
+    rng = env.rng
+    out = []
+    seen = set()
+    for c in cases:
+        if c.get("room") is not None or len(c["chunks"]) > 3:
+            continue
+        stream = "".join(c["chunks"])
+        k = (c["maxsize"], stream, len(c["chunks"]) > 1)
+        if k in seen or len(stream) > 800:
+            continue
+        seen.add(k)
+        chunks = [unspec(x) for x in c["chunks"]]
+        if sum(len(x) for x in chunks) > 2000:
+            continue
+        tag = "backpressure:" + c.get("tag", "corpus").split(":")[0]
+        rooms = (ROOMS if c.get("tag") in ("corpus", "tkl", "maxsize-boundary", "exhaustive")
+                 else rng.sample(ROOMS, 2) if c.get("tag") in ("signalling", "ping-token")
+                 else [rng.choice(ROOMS)] if env.thorough or rng.random() < 0.4 else [])
+        for room in rooms:
+            out.append(session_case(c["maxsize"], chunks, client=c.get("client", False), tag=tag, room=room))
+    return out
 
 
 def boundary_sessions(env):
@@ -408,6 +462,27 @@ def boundary_sessions(env):
         for bad in (o_frame(0, b"", sim.o_options([(11, b"\xff")])), o_frame(0, b"", b"\xf0"), bytes([0x09, 0]) + bytes(9)):
             cases.append(session_case(DEFAULT_MAX, [pre + bad + get], tag="empty-before-csm"))
             cases.append(session_case(DEFAULT_MAX, [c for c in (pre, bad, get) if c], tag="empty-before-csm"))
+    # (i) "Ping is answered by Pong with the same token": every token length, with and without elective options and
+    # a diagnostic payload, as first message and after the CSM, several Pings in a row, whole / cut / byte by byte
+    for tkl in range(0, 9):
+        for token in sorted({bytes(tkl), b"\xff" * tkl, bytes(range(1, tkl + 1)), bytes(rng.randrange(256) for _ in range(tkl))}):
+            for opts, payload in (([], b""), ([(2, b"e")], b""), ([(8, b"\xff"), (300, b"")], b"diagnostic")):
+                pg = o_frame(226, token, o_body(opts, payload))
+                for pre in (b"", CSM0):
+                    stream = pre + pg + get + o_frame(226, token[::-1], b"") + pg
+                    cases.append(session_case(DEFAULT_MAX, [stream], tag="ping-token"))
+                    cases.append(session_case(DEFAULT_MAX, [c for c in (pre + pg[:1], pg[1:2 + tkl], pg[2 + tkl:] + get) if c], tag="ping-token"))
+                    if not opts:
+                        cases.append(session_case(DEFAULT_MAX, [stream[i:i + 1] for i in range(len(stream))], tag="ping-token"))
+    # (j) a frame that ends in a bare payload marker (options, ff, nothing): RFC 7252 section 3 calls it a format error,
+    # the shared option codec (C01's domain) reads an empty payload, and this check follows the code there (a position
+    # stated in DESIGN section 7 and in the claim) -- the rows pin that model, code and oracle agree on it
+    for code in (1, 69, 0, 226, 225):
+        for body in (b"\xff", b"\xb1a\xff", b"\x40\xff"):
+            fr = o_frame(code, b"\x09", body)
+            for pre in (b"", CSM0):
+                cases.append(session_case(DEFAULT_MAX, [pre + fr + get + ping], tag="bare-payload-marker"))
+                cases.append(session_case(DEFAULT_MAX, [c for c in (pre + fr[:-1], fr[-1:] + get, ping) if c], tag="bare-payload-marker"))
     # signalling with payload (diagnostic) and a Ping across a length boundary
     for code in (226, 228, 229):
         for L in (12, 13, 14):
@@ -557,7 +632,8 @@ def random_sessions(env, n):
         picks = [chs[0]] + rng.sample(chs[1:], min(3, len(chs) - 1))
         for name, chunks in picks:
             cases.append(session_case(maxsize, chunks, client=rng.random() < 0.3,
-                                      tag="random" + ("-malformed" if malformed_at is not None else "")))
+                                      tag="random" + ("-malformed" if malformed_at is not None else ""),
+                                      room=rng.choice([None, None, None] + ROOMS + [rng.randrange(0, 300)])))
     return cases
 
 
@@ -622,10 +698,14 @@ def stream_features(stream, maxsize):
 # --------------------------------------------------------------------------- running the code
 
 def run_F(tcp, case):
+    """-> (canonical string, events, connection, transport, stream).  The session runs in a process that
+    turns warnings into errors (`python -W error`, pytest `filterwarnings = error`): nothing a peer sends
+    may make library code warn, and a warning raised inside data_received is an escaping exception."""
     chunks = [unspec(c) for c in case["chunks"]]
     with warnings.catch_warnings():
-        warnings.simplefilter("ignore")
-        return sim.run_session(tcp, case["maxsize"], chunks, client=case.get("client", False)) + (b"".join(chunks),)
+        warnings.simplefilter("error")
+        return sim.run_session(tcp, case["maxsize"], chunks, client=case.get("client", False),
+                               room=case.get("room")) + (b"".join(chunks),)
 
 
 def f_line(case):
@@ -923,7 +1003,9 @@ def glue_sessions(env, aiocoap, tcp, rep):
             for ch in (stream[:cut], stream[cut:]):
                 if not transport.closed:
                     try:
-                        conn.data_received(ch)
+                        with warnings.catch_warnings():
+                            warnings.simplefilter("error")
+                            conn.data_received(ch)
                     except Exception as e:
                         escaped = type(e).__name__
                         break
@@ -1045,21 +1127,29 @@ def run(env, rep):
 
     # ---- F: sessions
     corpus = [c for _, c in load_corpus("C15") if c.get("kind") == "F"]
-    cases = corpus + boundary_sessions(env) + after_close_sessions(env) + exhaustive_sessions(env) + big_sessions(env) \
-        + random_sessions(env, env.scale(2000, 60000))
+    for c in corpus:
+        c.setdefault("tag", "corpus")
+    cases = corpus + boundary_sessions(env) + after_close_sessions(env) + exhaustive_sessions(env) + big_sessions(env)
+    cases = cases + backpressure_sessions(env, cases) + random_sessions(env, env.scale(2000, 60000))
     for c in cases:
         if c["maxsize"] == DEFAULT_MAX:
             c["maxsize"] = real_max
     lines, impl = [], []
     malformed = 0
     for case in cases:
-        out, events, conn, stream = run_F(tcp, case)
+        out, events, conn, transport, stream = run_F(tcp, case)
         lines.append(f_line(case))
         impl.append(out)
         nontrivial = len(events) > 1
-        rep.case({"maxsize": case["maxsize"], "chunks": case["chunks"], "client": case.get("client", False), "kind": "F"},
-                 nontrivial=nontrivial, sample_every=3000)
+        rep.case(small_case(case), nontrivial=nontrivial, sample_every=3000)
         rep.count("F:tag=" + case.get("tag", "corpus"))
+        rep.count("F:room=%s" % ("unlimited" if case.get("room") is None else case["room"] if case["room"] in ROOMS else "other"))
+        if transport.max_buffered:
+            # what the endpoint did while earlier output of its own was still waiting in the write buffer
+            rep.count("F:write-buffer=%s" % ("<=7" if transport.max_buffered <= 7 else "<=40" if transport.max_buffered <= 40 else ">40"))
+            if transport.closed:
+                ci = next(n for n, e in enumerate(events) if e[0] == "C")
+                rep.count("F:backpressure:closed-by=" + ("peer" if events[ci - 1][0] == "E" else "own-abort"))
         rep.count("F:chunks=%s" % ("1" if len(case["chunks"]) == 1 else "2-4" if len(case["chunks"]) <= 4 else "5-16" if len(case["chunks"]) <= 16 else ">16"))
         rep.count("F:stream=%s" % ("<=11" if len(stream) <= 11 else "<=300" if len(stream) <= 300 else "<=66000" if len(stream) <= 66000 else ">66000"))
         for feat in stream_features(stream, case["maxsize"]):
@@ -1078,8 +1168,7 @@ def run(env, rep):
             malformed += 1
         verdict, key = judge_F(aiocoap, case, events, stream)
         if verdict:
-            rep.oracle_fail({"kind": "F", "maxsize": case["maxsize"], "chunks": case["chunks"],
-                             "client": case.get("client", False)}, verdict, key=key)
+            rep.oracle_fail(small_case(case), verdict, key=key)
     compare(env, rep, cases, lines, impl, what="session")
     rep.exhaustive_parts.append("all chunkings (2^(n-1) each) of %d short streams (n <= %d bytes)" % (N_EXHAUSTIVE, env.scale(11, 14)))
     # distribution gates (only meaningful when model and implementation agree; a disagreement is
@@ -1091,7 +1180,10 @@ def run(env, rep):
                      "F:abort=Overly large message announced", "F:abort=Failed to parse message",
                      "F:abort=No CSM received", "F:abort=Option not supported", "F:abort=Unknown critical option",
                      "F:abort=Unknown signalling code", "F:empty:before-csm", "F:empty:after-csm",
-                     "F:tag=signalling-option-table", "F:tag=empty-before-csm") \
+                     "F:tag=signalling-option-table", "F:tag=empty-before-csm", "F:tag=ping-token",
+                     "F:backpressure:closed-by=own-abort", "F:backpressure:closed-by=peer",
+                     "F:write-buffer=<=7", "F:write-buffer=<=40", "F:write-buffer=>40") \
+                + tuple("F:room=%s" % r for r in ROOMS + ["unlimited"]) \
                 + tuple("F:sig-opt:%s:%s:%s" % (f, c, w) for f in ("str", "uint") for c in ("elective", "critical")
                         for w in ("well-formed", "ill-formed")):
             if not rep.hist.get(need):
@@ -1150,7 +1242,7 @@ def run(env, rep):
         fields = None
         try:
             with warnings.catch_warnings():
-                warnings.simplefilter("ignore")
+                warnings.simplefilter("error")
                 m = tcp._decode_message(fr)
             fields = sim.msg_fields(m)
             r = sim.render_fields(*fields)
@@ -1279,7 +1371,7 @@ def replay(env, case):
         reconnect_cases(aiocoap, tcp, sink)
         return sink.failures[0] if sink.failures else ""
     if k == "F":
-        out, events, conn, stream = run_F(tcp, case)
+        out, events, conn, transport, stream = run_F(tcp, case)
         return judge_F(aiocoap, case, events, stream)[0]
     if k == "X":
         b = bytes.fromhex(case["data"])
@@ -1300,7 +1392,7 @@ def replay(env, case):
         fields = None
         try:
             with warnings.catch_warnings():
-                warnings.simplefilter("ignore")
+                warnings.simplefilter("error")
                 fields = sim.msg_fields(tcp._decode_message(fr))
             r = sim.render_fields(*fields)
         except aiocoap.error.UnparsableMessage:
